@@ -25,7 +25,7 @@ Record case := {
 Definition req_eqb (a b : req) : bool :=
   match a, b with
   | RAct s d, RAct s' d' | RDeact s d, RDeact s' d' => scope_eqb s s' && Bool.eqb d d'
-  | RIdn, RIdn | RClose, RClose => true
+  | RIdn, RIdn | RClose, RClose | RBogus, RBogus => true
   | _, _ => false
   end.
 Definition reply_eqb (a b : reply) : bool :=
